@@ -1,6 +1,9 @@
 #!/usr/bin/env python3
-"""C12 translator step: every object of static storage duration in include/tapkee (keyword `static`, or a variable
-defined at namespace scope) and every use of the C library's hidden generator state (`std::rand`), with a
+"""C12 translator step: every object of static storage duration in include/tapkee, include/stichwort (file keys
+`stichwort:<rel>`) and src/cli/*.hpp (`cli:<name>`) — keyword `static` / `thread_local` at namespace, class or function
+scope, or a variable defined at namespace scope — with its declared type, whether it is const, whether its initialiser
+is a run-time value (function-local static initialised from a parameter / local / call: frozen by the FIRST call) and
+whether its function hands it out (singleton); and every use of the C library's hidden generator state (`std::rand`), with a
 mechanically established *role* (why it cannot carry information from one embed call into the result of the next)
 -> lean/TapkeeVerif/Gen/Statics.lean.  `Props/C12.no_hidden_state` is stated over the generated table, so a newly
 introduced `static` cache (role `unknown`, or a random stream / unexplained object reachable from a deterministic
